@@ -879,8 +879,14 @@ def _pyro_obj_to_auto_proxy(obj: Any) -> Any:
     """reduce function that automatically replaces Pyro objects by a Proxy"""
     daemon = getattr(obj, "_pyroDaemon", None)
     if daemon:
-        # only return a proxy if the object is a registered pyro object
-        return daemon.proxyFor(obj)
+        # only return a proxy if the object is a registered pyro object. The _pyroId/_pyroDaemon attributes
+        # alone don't prove that: unregistering by id (or a forced registration of something else under
+        # that id) leaves them on the object. Such an object is an ordinary object again: it travels by value.
+        registered = daemon.objectsById.get(getattr(obj, "_pyroId", None))
+        if isinstance(registered, weakref.ref):
+            registered = registered()
+        if registered is obj or (inspect.isclass(registered) and isinstance(obj, registered)):
+            return daemon.proxyFor(obj)
     return obj
 
 
